@@ -85,11 +85,11 @@ def classify_mismatch(got, expected_list, i):
     exp = expected_list[i] if i < len(expected_list) else None
     if exp is not None and got == exp:
         return None
-    if exp is None:
-        return 'surplus'
     for j, e in enumerate(expected_list):
         if got == e:
             return 'duplicate' if j < i else 'reordered'
+    if exp is None:
+        return 'foreign'        # more items than were ever sent
     if len(got) < len(exp) and exp.startswith(got):
         return 'truncated'
     if len(got) > len(exp) and got.startswith(exp):
